@@ -26,7 +26,8 @@ func init() {
 			"R6b httpError.Error writes its `<status> <status text>` prefix on every path (no status-dependent variant). " +
 			"R5b the client reads an error body up to a constant limit; R8 a response returned by the auth transport has not had its Body closed by it. " +
 			"R2 covers multi-valued case arms of the HEAD fallback; R6c the prefix built by the shared helper is used as built (nothing trims or re-slices it between the helper and the separator). " +
-			"R5c the too-large test on an error body is the complement of \"fewer bytes than the reader's limit were read\" (len(data) > R-1 or >= R for io.LimitReader(body, R)).",
+			"R5c the too-large test on an error body is the complement of \"fewer bytes than the reader's limit were read\" (len(data) > R-1 or >= R for io.LimitReader(body, R)). " +
+			"R9 on the way to the status line an error is never type-asserted to a module error interface (errors.As finds a wrapped HTTPError, an assertion only a bare one).",
 		NotDecided: "the message fixed point as a string fact for arbitrary message texts, and preservation of detail JSON bytes, are not decided.",
 		Technique:  "static analysis: table extraction from the package initialiser, format-verb/provenance analysis of fmt.Errorf arguments, SSA dominance",
 	})
@@ -231,6 +232,7 @@ func runC07(c *core.Ctx) {
 	prefixUsedAsBuilt(c, "C07.R6")
 	errorBodyLimitIsConstant(c, "C07.R5")
 	errorBodyTooLargeTestMatchesRead(c, "C07.R5")
+	statusFoundThroughTheErrorChain(c, "C07.R9")
 	returnedResponseBodyOpen(c, "C07.R8")
 	c07Is(c)
 }
